@@ -3,3 +3,5 @@
 package merkle
 
 func verifNCPU(ncpu int) int { return ncpu }
+
+func verifObserveStep(step int) {}
